@@ -385,6 +385,20 @@ func suiteC02(c *Ctx) []Suite {
 			}
 			return out
 		}},
+		{Name: "wire/ascii-domain", Gen: func(c *Ctx) []Case {
+			// an ASCII item holds 7-bit characters only: every byte string with a byte >= 0x80
+			// (valid UTF-8 or not) is refused, so no encoding ever carries such a byte
+			var out []Case
+			for _, s := range []string{"caf\xe9", "\xff", "a\x80b", "\xc3", "\xe2\x82", "é", "名", "\xc3\x28", "\xf0\x9f\x98", "ok\x7f", "\x00\x01\x7f", "plain"} {
+				out = append(out, Case{Op: "ctor ascii " + hxs(s), Decisive: true, Nontrivial: true, Tags: []string{"ascii-domain"}}.fields("bytes"))
+			}
+			for i := 0; i < c.N(120); i++ {
+				b := make([]byte, 1+c.R.Intn(6))
+				c.R.Read(b)
+				out = append(out, Case{Op: "ctor ascii " + hx(b), Decisive: true, Nontrivial: true, Tags: []string{"ascii-domain"}}.fields("bytes"))
+			}
+			return out
+		}},
 		{Name: "wire/messages", Gen: func(c *Ctx) []Case {
 			var out []Case
 			for i := 0; i < c.N(2000); i++ {
@@ -497,7 +511,7 @@ func mutateBytes(r *rand.Rand, b []byte) ([]byte, string) {
 		for i := 0; i < k; i++ {
 			out = append(out, byte(r.Intn(256)))
 		}
-		if r.Intn(3) > 0 {
+		if r.Intn(3) > 0 && len(out) >= 4 {
 			binary.BigEndian.PutUint32(out, uint32(len(out)-4))
 		}
 		return out, "append"
